@@ -564,6 +564,19 @@ impl Database {
     }
 
     fn lock_connections_for_update(&self) -> std::sync::RwLockWriteGuard<'_, AtomicUsize> {
+        // Under a scheduling harness a task must never block while it holds the baton
+        #[cfg(feature = "verif")]
+        loop {
+            match self.connections.try_write() {
+                Ok(guard) => return guard,
+                Err(std::sync::TryLockError::Poisoned(_)) => break,
+                Err(std::sync::TryLockError::WouldBlock) => {
+                    if !crate::verif::yield_blocked("blocked.connections") {
+                        break;
+                    }
+                }
+            }
+        }
         self.connections
             .write()
             .expect("Error getting the db.connections.lock to update")
